@@ -549,25 +549,63 @@ def rule_K3(run: Run, prog: Program, only: set[str] | None = None, family: Class
 MEMO_ATTRS: set = set()
 
 
+def init_only_methods(prog: Program) -> set[str]:
+    """Names of private methods that only run during construction: every call site `x.m(...)` in the package sits in
+    __init__/__new__ or in another such method. (Name based: a helper name shared by two classes is judged jointly.)"""
+    callers: dict[str, set[str]] = {}
+    for fn in prog.package_functions():
+        for call in walk_no_nested(fn.node):
+            if isinstance(call, ast.Call) and isinstance(call.func, ast.Attribute):
+                callers.setdefault(call.func.attr, set()).add(fn.name)
+            elif isinstance(call, ast.Call) and isinstance(call.func, ast.Name):
+                callers.setdefault(call.func.id, set()).add(fn.name)
+    cand = {n for n in callers if n.startswith("_") and not n.startswith("__")}
+    ctor = {"__init__", "__new__"}
+    changed = True
+    only = set(cand)
+    while changed:
+        changed = False
+        for n in sorted(only):
+            if not all(c in ctor or c in only for c in callers[n]) or callers[n] == {n}:
+                only.discard(n)
+                changed = True
+    return only
+
+
+def _self_assigned_attrs(f: FunctionInfo):
+    if not f.params():
+        return
+    selfn = f.params()[0].arg
+    for st in walk_no_nested(f.node):
+        tg, val = [], None
+        if isinstance(st, ast.Assign):
+            tg, val = st.targets, st.value
+        elif isinstance(st, ast.AnnAssign) and st.value is not None:
+            tg, val = [st.target], st.value
+        for t in tg:
+            for t2 in (t.elts if isinstance(t, (ast.Tuple, ast.List)) else [t]):
+                if isinstance(t2, ast.Attribute) and isinstance(t2.value, ast.Name) and t2.value.id == selfn:
+                    yield t2.attr, st, val, selfn
+
+
 def derived_cache_attrs(prog: Program) -> list[tuple[ClassInfo, str]]:
-    """(class, attr): attr is annotated at class level with a package tensor class and assigned in that class's __init__."""
+    """(class, attr): attr is annotated at class level with a package tensor class and assigned during construction of that
+    class (in __init__ or a helper that only runs from it); plus memoised attributes (cached_property, or stored on self by
+    a method that can run after construction, with a value computed from self)."""
     out = []
+    MEMO_ATTRS.clear()
     tensor = prog.cls("Tensor")
+    init_only = init_only_methods(prog)
     for c in prog.classes.values():
-        init = c.methods.get("__init__")
-        if init is None:
+        ctors = [f for n, f in c.methods.items() if n == "__init__" or n in init_only]
+        if "__init__" not in c.methods:
             continue
         for a, ann in c.annotations.items():
             ks = prog.annotation_classes(c.module, ann)
             if not ks or not all(prog.is_subclass(k, tensor) for k in ks):
                 continue
-            selfn = init.params()[0].arg
-            for st in walk_no_nested(init.node):
-                if (isinstance(st, ast.Assign) and any(
-                        isinstance(t, ast.Attribute) and t.attr == a and isinstance(t.value, ast.Name) and t.value.id == selfn
-                        for t in st.targets)):
-                    out.append((c, a))
-                    break
+            if any(attr == a for f in ctors for attr, _st, _v, _s in _self_assigned_attrs(f)):
+                out.append((c, a))
     # memoised properties store their value in the instance __dict__, which Tensor.copy() shares with every shallow copy
     for c in prog.classes.values():
         if not prog.is_subclass(c, tensor):
@@ -575,21 +613,158 @@ def derived_cache_attrs(prog: Program) -> list[tuple[ClassInfo, str]]:
         for name, f in c.methods.items():
             if any(d in ("cached_property",) for d in f.decorators):
                 out.append((c, name))
+                MEMO_ATTRS.add((c.qualname, name))
     for c in prog.classes.values():
         if not prog.is_subclass(c, tensor):
             continue
         for name, f in c.methods.items():
-            if name in ("__init__", "__new__") or not f.params() or f.is_staticmethod or f.is_classmethod:
+            if name in ("__init__", "__new__") or name in init_only or not f.params() or f.is_staticmethod or f.is_classmethod:
                 continue
-            selfn = f.params()[0].arg
-            for st in walk_no_nested(f.node):
-                if isinstance(st, ast.Assign):
-                    for t in st.targets:
-                        if isinstance(t, ast.Attribute) and isinstance(t.value, ast.Name) and t.value.id == selfn and t.attr not in ("array",):
-                            out.append((c, t.attr))
-                            MEMO_ATTRS.add((c.qualname, t.attr))
+            if name.startswith("_") and not name.startswith("__") and not _called_somewhere(prog, name):
+                continue  # dead private helper
+            if _changes_coordinates(f):
+                continue  # an updater re-deriving state together with the coordinates is not a memo
+            if not any(isinstance(r, ast.Return) and r.value is not None and not (isinstance(r.value, ast.Constant) and r.value.value is None)
+                       for r in walk_no_nested(f.node)):
+                continue  # a procedure (refresh hook), not a query that remembers its answer
+            for attr, _st, val, selfn in _self_assigned_attrs(f):
+                if attr == "array" or val is None:
+                    continue
+                if not any(isinstance(x, ast.Name) and x.id == selfn for x in ast.walk(val)):
+                    continue  # a plain setter: the value does not depend on the object's coordinates
+                if isinstance(getattr(prog.lookup(c, attr), "node", None), ast.FunctionDef) and prog.lookup(c, attr).is_property:
+                    continue  # property setter
+                out.append((c, attr))
+                MEMO_ATTRS.add((c.qualname, attr))
     uniq = {(c.qualname, a): (c, a) for c, a in out}
     return [uniq[k] for k in sorted(uniq)]
+
+
+def _called_somewhere(prog: Program, name: str) -> bool:
+    cache = getattr(prog, "_called_names", None)
+    if cache is None:
+        cache = set()
+        for fn in prog.package_functions():
+            for call in walk_no_nested(fn.node):
+                if isinstance(call, ast.Call):
+                    f = call.func
+                    cache.add(f.attr if isinstance(f, ast.Attribute) else getattr(f, "id", ""))
+        prog._called_names = cache
+    return name in cache
+
+
+def _coordinate_stores(f: FunctionInfo):
+    """(object name, statement, how) for every store that changes the coordinates of an object: X.array = ..., X.array[..] = ..."""
+    for st in walk_no_nested(f.node):
+        tg = []
+        if isinstance(st, ast.Assign):
+            tg = st.targets
+        elif isinstance(st, (ast.AugAssign, ast.AnnAssign)):
+            tg = [st.target]
+        for t in tg:
+            for t2 in (t.elts if isinstance(t, (ast.Tuple, ast.List)) else [t]):
+                if isinstance(t2, ast.Attribute) and t2.attr == "array" and isinstance(t2.value, ast.Name):
+                    yield t2.value.id, st, "rebinds"
+                elif isinstance(t2, ast.Subscript) and isinstance(t2.value, ast.Attribute) and t2.value.attr == "array" \
+                        and isinstance(t2.value.value, ast.Name):
+                    yield t2.value.value.id, st, "writes into"
+
+
+def _changes_coordinates(f: FunctionInfo) -> bool:
+    selfn = f.params()[0].arg if f.params() else None
+    return any(x == selfn for x, _st, _h in _coordinate_stores(f))
+
+
+def _resets(prog: Program, s: ClassInfo | None, f: FunctionInfo, obj: str, a: str, depth: int = 0) -> bool:
+    """f re-assigns / deletes attribute a of the object named obj (directly, or through a method called on it or with it)."""
+    selfn = f.params()[0].arg if f.params() else None
+    for st in walk_no_nested(f.node):
+        if isinstance(st, (ast.Assign, ast.AnnAssign, ast.AugAssign)):
+            tg = st.targets if isinstance(st, ast.Assign) else [st.target]
+            for t in tg:
+                for t2 in (t.elts if isinstance(t, (ast.Tuple, ast.List)) else [t]):
+                    if isinstance(t2, ast.Attribute) and t2.attr == a and isinstance(t2.value, ast.Name) and t2.value.id == obj:
+                        return True
+        if isinstance(st, ast.Delete):
+            for t in st.targets:
+                if isinstance(t, ast.Attribute) and t.attr == a and isinstance(t.value, ast.Name) and t.value.id == obj:
+                    return True
+        if isinstance(st, ast.Call):
+            fx = st.func
+            consts = [x.value for x in st.args if isinstance(x, ast.Constant)]
+            if isinstance(fx, ast.Name) and fx.id == "delattr" and st.args and isinstance(st.args[0], ast.Name) and st.args[0].id == obj and a in consts:
+                return True
+            if isinstance(fx, ast.Name) and fx.id == "setattr" and st.args and isinstance(st.args[0], ast.Name) and st.args[0].id == obj and a in consts:
+                return True
+            if isinstance(fx, ast.Attribute) and fx.attr in ("pop", "clear", "__delitem__"):
+                base = fx.value
+                is_dict = (isinstance(base, ast.Attribute) and base.attr == "__dict__" and isinstance(base.value, ast.Name) and base.value.id == obj) or \
+                          (isinstance(base, ast.Call) and getattr(base.func, "id", "") == "vars" and base.args and isinstance(base.args[0], ast.Name)
+                           and base.args[0].id == obj)
+                if is_dict and (fx.attr == "clear" or a in consts):
+                    return True
+            if depth < 2 and isinstance(fx, ast.Attribute) and isinstance(fx.value, ast.Name) and s is not None:
+                m2 = prog.lookup(s, fx.attr)
+                if m2 is not None and m2 is not f and m2.params():
+                    if fx.value.id == obj and _resets(prog, s, m2, m2.params()[0].arg, a, depth + 1):
+                        return True
+                    if fx.value.id == selfn:
+                        hps = [p.arg for p in m2.params()][1:]
+                        for i, x in enumerate(st.args):
+                            if i < len(hps) and isinstance(x, ast.Name) and x.id == obj and _resets(prog, s, m2, hps[i], a, depth + 1):
+                                return True
+    return False
+
+
+def rule_K4m(run: Run, prog: Program) -> int:
+    run.rule(
+        "E6.K4m",
+        "a value memoised on the instance (cached_property, or an attribute a query stores on self from the coordinates) is "
+        "reset by every method that changes the coordinates of the receiver or of a self.copy() of it (Tensor.copy() hands the "
+        "instance __dict__, memo included, to the copy)",
+    )
+    from geolint.dunder import _single_assign_env
+
+    tensor = prog.cls("Tensor")
+    memos = [(k, a) for k, a in derived_cache_attrs(prog) if (k.qualname, a) in MEMO_ATTRS]
+    init_only = init_only_methods(prog)
+    n = 0
+    for k, a in memos:
+        for f in prog.package_functions():
+            if f.cls is None or not prog.is_subclass(f.cls, tensor) or f.name in ("__init__", "__new__", "__apply__") or f.name in init_only:
+                continue
+            both = [c for c in prog.concrete_subclasses(k) if prog.is_subclass(c, f.cls) and prog.lookup(c, f.name) is f]
+            if not both:
+                continue  # no concrete class both carries the memo and resolves this method
+            if not f.params() or f.is_staticmethod or f.is_classmethod:
+                continue
+            selfn = f.params()[0].arg
+            env = _single_assign_env(f)
+            for obj, st, how in _coordinate_stores(f):
+                carries = obj == selfn
+                if not carries and obj in env:
+                    v = env[obj]
+                    if isinstance(v, ast.Call) and isinstance(v.func, ast.Attribute) and v.func.attr in ("copy", "__copy__") and (
+                            (isinstance(v.func.value, ast.Name) and v.func.value.id == selfn)
+                            or (isinstance(v.func.value, ast.Call) and getattr(v.func.value.func, "id", "") == "super")):
+                        carries = True
+                    elif isinstance(v, ast.Call) and getattr(v.func, "attr", getattr(v.func, "id", "")) == "copy" and v.args \
+                            and isinstance(v.args[0], ast.Name) and v.args[0].id == selfn:
+                        carries = True
+                if not carries:
+                    continue
+                n += 1
+                recv = both[0]
+                if _resets(prog, recv, f, obj, a):
+                    run.add("E6.K4m", f.short, f"{norm_stmt(st)[:70]} / {k.name}.{a}", PROVEN,
+                            f"{f.short} {how} the coordinates of `{obj}` and resets the memoised `{a}` on it", f"{f.module.rel}:{st.lineno}")
+                else:
+                    run.add("E6.K4m", f.short, f"{norm_stmt(st)[:70]} / {k.name}.{a}", VIOLATION,
+                            f"{f.short} {how} the coordinates of `{obj}` ({'the receiver' if obj == selfn else 'a shallow copy of the receiver'}) "
+                            f"but the memoised {k.name}.{a} stays in its instance __dict__: once `{a}` has been computed, every later "
+                            f"query that uses it answers for the OLD coordinates",
+                            f"{f.module.rel}:{st.lineno}")
+    return n
 
 
 def _returned_names(fn: FunctionInfo) -> set[str]:
@@ -707,12 +882,18 @@ def rule_K4(run: Run, prog: Program) -> int:
                     for x in walk_no_nested(cur.node))
                 if not calls_super:
                     # a constructor-returning __apply__ recomputes the attribute in __init__
-                    if any(isinstance(r, ast.Return) and isinstance(r.value, ast.Call) and prog.classes.get(
-                            prog.resolve_expr_name(cur.module, r.value.func, cur) or "") is not None for r in walk_no_nested(cur.node)):
+                    def _ctor(call: ast.Call) -> bool:
+                        fx = call.func
+                        if isinstance(fx, ast.Attribute) and fx.attr in REWRAP_METHODS:
+                            fx = fx.value
+                        return prog.classes.get(prog.resolve_expr_name(cur.module, fx, cur) or "") is not None or _is_type_self_call(call, cself)
+
+                    rets_ = [r for r in walk_no_nested(cur.node) if isinstance(r, ast.Return) and r.value is not None]
+                    if rets_ and all(isinstance(r.value, ast.Call) and _ctor(r.value) for r in rets_):
                         ok = True
                     break
                 cur = prog.lookup_after(s, cur.cls, "__apply__")
-            memo = (a in k.methods and "cached_property" in k.methods[a].decorators) or (k.qualname, a) in MEMO_ATTRS
+            memo = (k.qualname, a) in MEMO_ATTRS
             if ok and stale is not None:
                 sf, sst = stale
                 run.add("E6.K4", s.name, f"__apply__ moves {a}", VIOLATION,
